@@ -11,14 +11,14 @@ func multiLineStringReader(r io.Reader, byteOrder binary.ByteOrder) (geom.Geom, 
 	if err := binary.Read(r, byteOrder, &numLineStrings); err != nil {
 		return nil, err
 	}
-	lineStrings := make([]geom.LineString, numLineStrings)
+	lineStrings := make([]geom.LineString, 0, capHint(numLineStrings, maxMemberHint))
 	for i := uint32(0); i < numLineStrings; i++ {
 		if g, err := Read(r); err == nil {
-			var ok bool
-			lineStrings[i], ok = g.(geom.LineString)
+			l, ok := g.(geom.LineString)
 			if !ok {
 				return nil, &UnexpectedGeometryError{g}
 			}
+			lineStrings = append(lineStrings, l)
 		} else {
 			return nil, err
 		}
